@@ -29,6 +29,8 @@ def compare(op, impl, model, rep):
         return "the model predicts a process crash, the implementation survived"
     if c == "readers.stdio":
         keys = ["calls", "notes", "answers", "spin", "spinAfterClose"]
+        if op.get("handlerKind") == "reentrant":
+            keys += ["re"]   # the calls the handlers made on their own client
         if op.get("badInits"):
             keys += ["inits", "init"]   # handshake histories: the attempts answered with bad content, then the retry
         if not op.get("exit"):
